@@ -855,6 +855,8 @@ def fser(f):
     Dm = odl.solvers.functional.default_functionals
     t = type(f)
     n = f.domain.size
+    if type(f).__name__ == 'RosenbrockFunctional':
+        return '(FRosen %d %s)' % (n, C.q(float(f.scale)))
     if t is Dm.L2NormSquared:
         return '(FL2Sq %d)' % n
     if t is Dm.L2Norm:
@@ -897,7 +899,11 @@ def fgen(rng, X, depth):
     Fm = odl.solvers.functional.functional
     n = X.size
     if depth <= 0 or rng.random() < 0.15:
-        k = rng.choice(['l2sq', 'l2sq', 'l1', 'const', 'zero'])
+        k = rng.choice(['l2sq', 'l2sq', 'l1', 'const', 'zero', 'rosen'])
+        if k == 'rosen':
+            if n >= 2 and type(X).__name__ != 'DiscretizedSpace' or (n >= 2 and X.ndim == 1):
+                return S.RosenbrockFunctional(X, scale=rng.choice([1.0, 2.0, 0.5, 3.0]))
+            return S.L2NormSquared(X)
         if k == 'l2sq':
             return S.L2NormSquared(X)
         if k == 'l1':
